@@ -59,6 +59,11 @@ CHECKS = {
     note="Trusted: TLC, Compare.tla, drv_compare.cpp. either-typed operands are not driven. The shape-blind isequal/isclose were repaired by fix: commits.",
     technique="TLA+ reference semantics + TLC law checking; trace validation of the real oracles in two build modes",
     design="5/C18"),
+ "C16": dict(
+    text="Linalg.tla defines matmul (batch broadcasting, 1-d promotion), dot, inner, outer, vecdot, tensordot (integer and explicit axes), kron and trace as sums of products over exactly the contracted index ranges; TLC checks identities between them (2-d matmul = tensordot(1) = dot, 1-d inner = dot = matmul, kron shape, tensordot(0) = outer, matmul validity criterion) on all pairs of small shapes; all pairs of operand shapes of the scope are executed on both matmul implementations and the other routines with injective integer data and TraceOps.tla decides shape and every element.",
+    note="Trusted: TLC, Linalg.tla, drv_linalg.cpp. Two input classes are known findings (matmul v1 with a 1-d operand; trace over negative-offset/empty diagonals).",
+    technique="TLA+ reference semantics (exact integer sums) + TLC identity checking; trace validation of the real routines by TLC",
+    design="5/C16"),
 }
 
 NOT_APPLICABLE = {}
